@@ -51,6 +51,11 @@ def unary_unit(u) -> Stats:
                 bad(f"len of {c}: {len(C)}", coalition=c)
             if co.Coalition.from_players(list(S)).id != c or co.Coalition.from_players(reversed(sorted(S))).id != c:
                 bad(f"from_players roundtrip of {c}", coalition=c)
+            # a player named more than once is still one member (set semantics), whatever container the players come in
+            dup = sorted(S) + sorted(S)[:2] + sorted(S)[-1:]
+            for players in (dup, tuple(dup), iter(dup), set(S), frozenset(S), np.array(sorted(S), dtype=np.int64)):
+                if co.Coalition.from_players(players).id != c:
+                    bad(f"from_players({dup} as {type(players).__name__}) of {c}", coalition=c)
             if C.inverted(n).id != idof(full - S):
                 bad(f"complement of {c} in {n} players: {C.inverted(n).id}", coalition=c)
             for i in range(n):
